@@ -599,6 +599,9 @@ class PlanJoinTablesQuery:
                 self.add_step_to_partition(step)
                 return step
 
+            # next step can't be partitioned.
+            self.close_partition()
+
         elif partition_size is not None:
             # create partition
 
@@ -612,10 +615,6 @@ class PlanJoinTablesQuery:
 
             self.add_step_to_partition(step)
             return step
-
-        else:
-            # next step can't be partitioned.
-            self.close_partition()
 
         return self.planner.plan.add_step(step)
 
